@@ -262,7 +262,11 @@ func endToEnd() {
 				}
 			}
 			if got := readAll(); !same(got, base.payload) {
-				run.Violation("C08/e2e/incomplete-delivered", fmt.Sprintf("one fragment of the second datagram (differs in %s) never arrived, yet the socket returned %d datagrams", diff, len(got)), rep)
+				if len(got) == 1 {
+					run.Violation("C08/e2e/mixed-or-lost", fmt.Sprintf("two datagrams differing only in %s, fragments interleaved, one fragment of the second withheld: the socket returned one datagram of %d bytes that is not the complete first one (%d bytes)", diff, len(got[0]), len(base.payload)), rep)
+				} else {
+					run.Violation("C08/e2e/incomplete-delivered", fmt.Sprintf("one fragment of the second datagram (differs in %s) never arrived, yet the socket returned %d datagrams", diff, len(got)), rep)
+				}
 			}
 			// leftovers of B stay in the reassembler; let them age out so that they cannot meet a later datagram
 			time.Sleep(31 * time.Second)
